@@ -5,6 +5,7 @@ CONSTANTS Operands <- OperandsA
  LongOperands <- OperandsB
  LongOps <- OpsAll
  LongPres <- PresNone
+ RightTakesRest = FALSE
  GoRemainder = FALSE
  Emit = TRUE
 SPECIFICATION Spec
